@@ -156,6 +156,60 @@ def run(ctx):
                     ctx.counterexample('globmatch(%r, %r, %s|REALPATH) = %r but glob %s it' % (p, pat, corr.flag_names(fv), gm, 'returns' if p in want else 'does not return'),
                                        {'path': p, 'pattern': pat, 'flags': corr.flag_names(fv)})
     ctx.counted('termination and designed symlink cases', n, n // 2, [{'pattern': '**/x.txt', 'flags': 'GLOBSTAR|FOLLOW'}])
+
+    # ---- REALPATH asks the file system at every call: the same path string over a different / changed tree -------------
+    n = 0
+    spec_real = [('pkg', 'd', None), ('pkg/data', 'd', None), ('pkg/data/x', 'f', None), ('a', 'd', None), ('a/d', 'd', None), ('a/d/x', 'f', None), ('real', 'd', None), ('real/x', 'f', None)]
+    spec_link = [('store', 'd', None), ('store/x', 'f', None), ('pkg', 'd', None), ('pkg/data', 'l', '../store'), ('a', 'd', None), ('a/d', 'l', '../real'), ('real', 'd', None), ('real/x', 'f', None)]
+    R = Gm.GLOBSTAR | Gm.REALPATH
+    probes = [('pkg/data/x', '**/x'), ('pkg/data/x', 'pkg/**/x'), ('a/d/x', 'a/**/x'), ('a/d/x', '**'), ('real/x', '**/x')]
+    old = os.getcwd()
+    with trees.Tree(spec_real) as T1, trees.Tree(spec_link) as T2:
+        try:
+            fresh = {}
+            for T, tag in ((T1, 'real'), (T2, 'link')):
+                for path, pat in probes:
+                    fresh[(tag, path, pat)] = not any(os.path.islink(os.path.join(T.root, *path.split('/')[:k])) for k in range(1, len(path.split('/'))))
+            for order in ((T1, 'real', T2, 'link'), (T2, 'link', T1, 'real')):
+                for how in ('chdir', 'root_dir', 'dir_fd'):
+                    for path, pat in probes:
+                        got = []
+                        for T, tag in ((order[0], order[1]), (order[2], order[3]), (order[0], order[1])):
+                            n += 1
+                            if how == 'chdir':
+                                os.chdir(T.root)
+                                got.append((tag, Gm.globmatch(path, pat, flags=R), Gm.globfilter([path], pat, flags=R) == [path]))
+                                os.chdir(old)
+                            elif how == 'root_dir':
+                                got.append((tag, Gm.globmatch(path, pat, flags=R, root_dir=T.root), Gm.globfilter([path], pat, flags=R, root_dir=T.root) == [path]))
+                            else:
+                                fd = os.open(T.root, os.O_RDONLY)
+                                try:
+                                    got.append((tag, Gm.globmatch(path, pat, flags=R, dir_fd=fd), Gm.globfilter([path], pat, flags=R, dir_fd=fd) == [path]))
+                                finally:
+                                    os.close(fd)
+                        for tag, gm, gf in got:
+                            want = fresh[(tag, path, pat)]
+                            if gm != want or gf != want:
+                                ctx.counterexample('globmatch(%r, %r, GLOBSTAR|REALPATH) over the %s tree (root by %s) after a call over the other tree: %r/%r, the tree says %r' % (
+                                    path, pat, tag, how, gm, gf, want), {'path': path, 'pattern': pat, 'how': how, 'order': [order[1], order[3], order[1]]})
+                                break
+            # the same root, the directory replaced by a symlink (and back) between calls
+            for path, pat in (('a/d/x', 'a/**/x'), ('a/d/x', '**/x')):
+                n += 1
+                r1 = Gm.globmatch(path, pat, flags=R, root_dir=T1.root)
+                os.rename(os.path.join(T1.root, 'a', 'd'), os.path.join(T1.root, 'a', 'd.real'))
+                os.symlink('../real', os.path.join(T1.root, 'a', 'd'))
+                r2 = Gm.globmatch(path, pat, flags=R, root_dir=T1.root)
+                os.unlink(os.path.join(T1.root, 'a', 'd'))
+                os.rename(os.path.join(T1.root, 'a', 'd.real'), os.path.join(T1.root, 'a', 'd'))
+                r3 = Gm.globmatch(path, pat, flags=R, root_dir=T1.root)
+                if (r1, r2, r3) != (True, False, True):
+                    ctx.counterexample('globmatch(%r, %r, REALPATH) while a/d is a directory, then a symlink, then a directory again: %r' % (path, pat, (r1, r2, r3)),
+                                       {'path': path, 'pattern': pat, 'expected': [True, False, True]})
+        finally:
+            os.chdir(old)
+    ctx.counted('REALPATH verdicts across trees and tree changes', n, n // 2, [{'path': 'pkg/data/x', 'pattern': '**/x'}])
     return ctx.finish(RULE)
 
 
